@@ -1324,11 +1324,11 @@ class Config:  # pylint: disable=too-many-instance-attributes
                     value = sensitive_mask * len(str(field_value))
                 else:
                     value = sensitive_mask
-            elif (
-                sensitive_mask is not None
-                and isinstance(field_value, ContainerValueMixin)
-                and any(isinstance(item, Config) for item in field_value)  # type: ignore
+            elif isinstance(field_value, ContainerValueMixin) and any(
+                isinstance(item, Config) for item in field_value  # type: ignore
             ):
+                # configurations held in a list are rendered like nested sub-configurations: with
+                # the same ``virtual`` and ``sensitive_mask`` arguments
                 value = [
                     item.to_tree(virtual=virtual, sensitive_mask=sensitive_mask)
                     for item in field_value  # type: ignore
